@@ -268,5 +268,14 @@ ShrinkRegrow ==
             (a.cell[f][k] # Zero) =>
                 (f <= pre.nf /\ k <= NCells(pre) /\ a.cell[f][k] = pre.cell[f][k])
 
+(* load/save options move only through their setters (and init) *)
+AuxSetters == {"SetFiletype", "SetFprec", "SetDprec", "SetFormat"}
+AuxRules ==
+    /\ Kind \notin AuxSetters \cup {"Init", "Start"} => a.aux = pre.aux
+    /\ (Kind = "SetFiletype" /\ last.ok) => a.aux.ftype = op.ft
+    /\ (Kind = "SetFprec") => (last.ok <=> op.n >= 1)
+    /\ (Kind = "SetDprec") => (last.ok <=> op.n >= 1)
+    /\ (Kind = "SetFormat") => (last.ok <=> op.valid = 1)
+
 Bound == n <= MaxOps
 =============================================================================
